@@ -529,6 +529,39 @@ impl<M> Drop for SimFut<M> {
     }
 }
 
+/// A large future type (more than a page): size-dependent decisions in the crate see it.
+pub struct BigFut<M> {
+    pub id: u32,
+    _pad: [u8; 4200],
+    _m: PhantomData<fn() -> M>,
+    _pin: PhantomPinned,
+}
+impl<M> BigFut<M> {
+    pub fn new(id: u32) -> Self {
+        BigFut {
+            id,
+            _pad: [0; 4200],
+            _m: PhantomData,
+            _pin: PhantomPinned,
+        }
+    }
+}
+impl<M: OutMode> Future for BigFut<M> {
+    type Output = M::Out;
+    fn poll(self: Pin<&mut Self>, cx: &mut Context<'_>) -> Poll<M::Out> {
+        let addr = &*self as *const Self as usize;
+        match fut_poll(self.id, addr, cx) {
+            Poll::Ready((t, fail)) => Poll::Ready(M::conv(t, fail)),
+            Poll::Pending => Poll::Pending,
+        }
+    }
+}
+impl<M> Drop for BigFut<M> {
+    fn drop(&mut self) {
+        child_drop(self.id, self as *const Self as usize);
+    }
+}
+
 /// A future type without drop glue (no `Drop` impl, only plain data): its drop is unobservable.
 pub struct NdFut<M> {
     pub id: u32,
